@@ -279,6 +279,9 @@ proof! {
 			let cb_k2: bool = nd::any();
 			let fee: u64 = nd::any();
 			nd::assume(fee < (1 << 40));
+			// the fee shift only prioritises a transaction in the pool: the miner collects the whole fee
+			let shift: u8 = nd::any();
+			nd::assume(shift < 16);
 			let of = |c: bool| if c { OutputFeatures::Coinbase } else { OutputFeatures::Plain };
 			let block = Block {
 				header: BlockHeader::default(),
@@ -286,7 +289,7 @@ proof! {
 					inputs: Inputs::CommitOnly(vec![CommitWrapper::from(m::pack(1, 1))]),
 					outputs: vec![Output::new(of(cb_o1), co1, k::proof(true)), Output::new(of(cb_o2), co2, k::proof(true))],
 					kernels: vec![
-						TxKernel { features: KernelFeatures::Plain { fee: k::fee_fields(fee, 0) }, excess: ck1, excess_sig: k::sig(true) },
+						TxKernel { features: KernelFeatures::Plain { fee: k::fee_fields(fee, shift as u64) }, excess: ck1, excess_sig: k::sig(true) },
 						TxKernel { features: if cb_k2 { KernelFeatures::Coinbase } else { KernelFeatures::Plain { fee: k::fee_fields(0, 0) } }, excess: ck2, excess_sig: k::sig(true) },
 					],
 				},
@@ -303,6 +306,7 @@ proof! {
 			check!(r.is_ok() == eq, "verify_coinbase accepts exactly when coinbase outputs - (reward + fees) == coinbase kernels");
 			cover!(r.is_ok() && cb_o1 && !cb_o2 && cb_k2, "one coinbase output and kernel accepted");
 			cover!(r.is_err(), "rejected");
+			cover!(r.is_ok() && shift > 0 && fee > 1, "accepted with a fee-shifted kernel");
 			core::mem::forget(r);
 			core::mem::forget(block);
 		}
